@@ -1,7 +1,7 @@
 """C05 - Schedule independence: parallel dispatch equals sequential dispatch."""
 from .. import anchors as A
 from .. import fanout as F
-from ..shapes import coverage, Src, SELF
+from ..semcov import coverage, Src, SELF
 from . import c01
 
 PROP = "C05"
